@@ -5,3 +5,4 @@ import NmfuProps.C06
 import NmfuProps.C02
 import NmfuProps.C10
 import NmfuProps.C17
+import NmfuProps.C12
